@@ -208,7 +208,11 @@ def function_stream(res, rng, tier):
             elif which.startswith("f2"):
                 col2 = [rng.choice([None, 0, 1]) for _ in range(n)]
                 case["col2"] = col2
-                codes, labels = factorize_2d(api.make_key(col, kind, "numpy"), api.make_key(col2, "float", "numpy"), sort=which.endswith("sort"))
+                # use_dict_limit=0 sends the combination through the typed-Dict tracker (in production: from a cartesian product of 5e8)
+                dl = rng.choice([500_000_000, 0])
+                case["use_dict_limit"] = dl
+                res.count("tracker", "dict" if dl == 0 else "array")
+                codes, labels = factorize_2d(api.make_key(col, kind, "numpy"), api.make_key(col2, "float", "numpy"), sort=which.endswith("sort"), use_dict_limit=dl)
                 labs = api.index_to_ranks(labels, [kind, "float"])
                 tup = list(zip(col, col2))
                 ok = all((None in tup[i]) == (codes[i] < 0) and (codes[i] < 0 or labs[codes[i]] == tup[i]) for i in range(n)) and len(set(labs)) == len(labs)
